@@ -305,7 +305,8 @@ def classify(msg):
         # RFC 4253 8: the hash covers the VALUES e, f, p, g (as mpint);
         # another encoding of the same values alters nothing that is hashed
         try:
-            if parse_fields(msg.schema, payload) == msg.fields:
+            if payload[:1] == msg.payload[:1] and \
+                    parse_fields(msg.schema, payload) == msg.fields:
                 return 'recoded'
         except Malformed:
             pass
@@ -715,6 +716,8 @@ def reencoding_edits(name, fam):
     list of MITM edits (label, fn built on the value travelling then)."""
     schema = schema_for(fam, name)
     out = []
+    if schema is None:
+        return out                  # no such message in this family
 
     def add(field, op, valfn):
         out.append({'msg': name, 'label': f'{name}.{field}:{op}',
